@@ -99,6 +99,27 @@ CLAIMED = {
              "at first use: not symbolically executable; their use inside rewrite IS covered by (b) for the corpus). "
              "The quantifier over netlists is the corpus.",
         design_ref="DESIGN.md 2 (C21), 6.7"),
+    "C03": dict(
+        level="translation_validation", engine="tv-miter",
+        technique="translation validation per optimisation-toggle set: the Cranelift IR the real simulator emits under each "
+                  "environment (fresh process per set) is given a bit-vector semantics and compared by z3 with one "
+                  "toggle-independent word-level RTL term, for all inputs; models are replayed on the real simulator "
+                  "(JIT and interpreter) with and without the toggles",
+        text="For ~250 comb-only single-module designs (shapes written for each pass: single-reader `let` chains, dead and "
+             "duplicate definitions, base-write + guarded overrides, >= 8-arm selector chains (LUT mode), bit-wise "
+             "transposition/assembly, case decoding, element-wise array lanes; plus the operator corpus) the real "
+             "build_ir pipeline is run under: the default, each of the ten toggles named in the property switched off, "
+             "all ten off, and seeded random subsets (quick 4, thorough 32, plus the 7 per-stage levers). For every "
+             "design x toggle set z3 decides that every output port the emitted IR stores equals the same RTL term for "
+             "ALL input values and ALL previous buffer contents; hence all toggle sets agree with each other. The check "
+             "fails as inconclusive unless comb fusion, dead-variable DCE, version split, its LUT mode, comb layout and "
+             "switch lowering each changed the emitted IR of at least one design (non-vacuity).",
+        note="Outside the claim: designs with registers or instances -- so cone gating (needs a module subtree) and "
+             "conditional hoisting (needs $display in an event block) never fire, and lane vectorisation fires on none of "
+             "the designs (its candidates are variables that are not user-visible, which single-module designs do not "
+             "have); $display output and test verdicts; the interpreter's execution of the optimised statements (only "
+             "replayed, not encoded); Cranelift below its IR. The quantifier over programs is the corpus.",
+        design_ref="DESIGN.md 6.10"),
     "C19": dict(
         level="translation_validation", engine="tv-miter",
         technique="translation validation: the real synthesizer's netlists vs word-level RTL terms and vs each other, "
